@@ -433,7 +433,16 @@ func (env *SpecEnv) binary(n *ast.BinaryExpr) Val {
 		rt = boolT
 	}
 	if len(a.L) == 1 && len(b.L) == 1 && a.T().Sort.K == SBV && b.T().Sort.K == SBV && a.T().Sort.W != b.T().Sort.W {
-		env.fail("operands of %s have different widths (%s vs %s): add a conversion", n.Op, a.Typ, b.Typ)
+		// operands of different widths (e.g. after a field changed its type): compare / combine
+		// them as the integers they denote, in the wider type
+		if a.T().Sort.W < b.T().Sort.W {
+			a = scalar(b.Typ, e.extend(a.T(), b.T().Sort.W, isSigned(a.Typ)))
+		} else {
+			b = scalar(a.Typ, e.extend(b.T(), a.T().Sort.W, isSigned(b.Typ)))
+		}
+		if rt != boolT {
+			rt = a.Typ
+		}
 	}
 	saved := e.safety
 	e.safety = false
@@ -462,6 +471,19 @@ func (env *SpecEnv) selectField(base Val, name string) Val {
 		for i := 0; i < st.NumFields(); i++ {
 			if st.Field(i).Name() == name {
 				return fieldVal(base, i)
+			}
+		}
+	}
+	// projection of an array of structs onto one field (struct-of-arrays view)
+	if at, ok := t.Underlying().(*types.Array); ok {
+		if st, ok := at.Elem().Underlying().(*types.Struct); ok {
+			off := 0
+			for i := 0; i < st.NumFields(); i++ {
+				n := len(leavesOf(st.Field(i).Type()))
+				if st.Field(i).Name() == name {
+					return Val{Typ: types.NewArray(st.Field(i).Type(), at.Len()), L: base.L[off : off+n]}
+				}
+				off += n
 			}
 		}
 	}
@@ -650,6 +672,9 @@ func (env *SpecEnv) callExpr(n *ast.CallExpr) Val {
 				}
 				at := a.Typ.Underlying().(*types.Array)
 				v := env.typed(env.eval(n.Args[2]), at.Elem())
+				if len(v.L) == 1 && len(a.L) == 1 && a.L[0].Sort.Elem != nil && v.L[0].Sort.K == SBV && a.L[0].Sort.Elem.K == SBV && v.L[0].Sort.W != a.L[0].Sort.Elem.W {
+					v = e.convert(v, at.Elem()) // Go conversion to the element type
+				}
 				out := Val{Typ: a.Typ}
 				for k := range a.L {
 					out.L = append(out.L, c.store(a.L[k], e.toIndex(i), v.L[k]))
@@ -1066,26 +1091,14 @@ func (env *SpecEnv) applyOpaque(sf *SpecFunc, sub *SpecEnv) Val {
 		}
 	}
 	name := "spec_" + sf.Name
-	if e.reveal[sf.Name] {
-		// revealed in this unit: the application is a named constant (one per distinct argument
-		// list) defined by the body.  No uninterpreted function over arrays reaches the solver;
-		// the definition is included only in queries whose goal mentions the symbol.
-		var key strings.Builder
-		key.WriteString(name)
-		for _, a := range args {
-			key.WriteString("|")
-			key.WriteString(a.S)
+	hasArray := false
+	for _, a := range args {
+		if a.Sort.K == SArray {
+			hasArray = true
 		}
-		if t, ok := c.revealedApp[key.String()]; ok {
-			return scalar(rt, t)
-		}
-		app := c.fresh(rs, name)
-		c.revealedApp[key.String()] = app
-		c.symOfConst[app.S] = name
-		body := e.evalSpec(sf.Body, sub)
-		body = env.typed(body, rt)
-		c.axiom(app.S, name, c.eq(app, body.T()))
-		return scalar(rt, app)
+	}
+	if e.reveal[sf.Name] || hasArray {
+		return scalar(rt, env.opaqueConst(sf, sub, name, rt, rs, args, 0))
 	}
 	e.prog.declareUF(c, name, sorts, rs)
 	var app Term
@@ -1095,4 +1108,61 @@ func (env *SpecEnv) applyOpaque(sf *SpecFunc, sub *SpecEnv) Val {
 		app = c.app(rs, name, args...)
 	}
 	return scalar(rt, app)
+}
+
+// opaqueConst: the application of an opaque spec function as a named constant, one per
+// syntactically distinct argument list (sound: it only forgets congruence between arguments
+// that are equal but written differently).  Arguments that are if-then-else terms (state merged
+// at a join) are distributed over, so that facts known per branch still apply.  When the unit
+// reveals the function the constant is defined by the body, and the definition is included
+// only in queries whose goal mentions the symbol.
+func (env *SpecEnv) opaqueConst(sf *SpecFunc, sub *SpecEnv, name string, rt types.Type, rs *Sort, args []Term, depth int) Term {
+	e := env.e
+	c := e.c
+	if depth < 80 {
+		for i, a := range args {
+			info, ok := c.iteInfo[a.S]
+			if !ok {
+				info, ok = c.iteBV[a.S]
+			}
+			if ok {
+				a1 := append(append([]Term{}, args[:i]...), info.a)
+				a1 = append(a1, args[i+1:]...)
+				a2 := append(append([]Term{}, args[:i]...), info.b)
+				a2 = append(a2, args[i+1:]...)
+				return c.ite(info.cond, env.opaqueConst(sf, sub, name, rt, rs, a1, depth+1), env.opaqueConst(sf, sub, name, rt, rs, a2, depth+1))
+			}
+		}
+	}
+	var key strings.Builder
+	key.WriteString(name)
+	for _, a := range args {
+		key.WriteString("|")
+		key.WriteString(a.S)
+	}
+	if t, ok := c.revealedApp[key.String()]; ok {
+		return t
+	}
+	app := c.fresh(rs, name)
+	c.revealedApp[key.String()] = app
+	c.symOfConst[app.S] = name
+	c.appArgs[app.S] = append([]Term{}, args...)
+	c.appOrder = append(c.appOrder, app.S)
+	if e.reveal[sf.Name] {
+		// rebind the parameters to exactly these argument terms
+		sub2 := *sub
+		sub2.vars = map[string]Val{}
+		k := 0
+		for _, p := range sf.Params {
+			v := sub.vars[p.Name]
+			n := len(v.L)
+			nv := Val{Typ: v.Typ, L: args[k : k+n]}
+			k += n
+			sub2.vars[p.Name] = nv
+		}
+		body := e.evalSpec(sf.Body, &sub2)
+		body = env.typed(body, rt)
+		c.axiom(app.S, name, c.eq(app, body.T()))
+	}
+	return app
 }
